@@ -15,12 +15,14 @@ Definition const_row (r : seq nat) : bool := ~~ has (fun e => e != 0%N) r.
 Definition isconstant (p : parr) : bool :=
   all (fun t : term R => const_row t.1 || ~~ has (fun c => c != 0) t.2) (terms p).
 
-(* tonumpy.py: error for non-constants, else the coefficient column of the zero exponent row *)
+(* tonumpy.py: error for non-constants, else the coefficient column of the zero exponent row; a constant WITHOUT a zero
+   exponent row (only retained all-zero terms) is zero (fix D35; before, argwhere(...).item() raised ValueError) *)
 Definition tonumpy (p : parr) : res (seq nat * seq R) :=
   if ~~ isconstant p then Err FeatureNotSupported
   else match [seq t <- terms p | const_row t.1] with
+       | [::] => Ok (shape p, zeros R (psize p))
        | [:: t] => Ok (shape p, t.2)
-       | _ => Err ValueError      (* argwhere(...).item() needs exactly one zero row *)
+       | _ => Err ValueError      (* argwhere(...).item() needs at most one zero row *)
        end.
 
 (* decompose.py: one slice per stored term, stacked along a new first axis *)
